@@ -530,6 +530,64 @@ pub fn main(tier: Tier, replay: Option<String>) -> i32 {
             json!({"texts": matrix_cases().len()}),
         ));
     }
+    // (c') one key with many indexed rows (the id list of a key holds at most 127 ids) plus rows around it:
+    // whatever is accepted must hand out every indexed row under its key
+    {
+        let env = e.clone();
+        let cases: Vec<(usize, bool)> = [1usize, 126, 127, 128, 129, 254, 255, 256, 257, 300, 383, 384, 512, 700].iter().flat_map(|&n| [(n, false), (n, true)]).collect();
+        jobs.push(job(
+            CaseSpace {
+                label: "compiler/many-homographs".into(),
+                cases,
+                check_fn: Box::new(move |&(n, user): &(usize, bool)| {
+                    let mut o = Outcome::new();
+                    o.evaluations = 1;
+                    let ctx = format!("{} lexicon with {} indexed rows under the key \"あい\"", if user { "user" } else { "system" }, n);
+                    let mut rows: Vec<Row> = vec![Row::new("あ", 1, 1, 100, P_NOUN), Row::new("あいう", 1, 1, 100, P_NOUN)];
+                    for k in 0..n {
+                        rows.push(Row::new("あい", 1, 1, (k % 3000) as i32, P_NOUN).reading(&format!("ヨミ{}", k)));
+                    }
+                    rows.push(Row::new("い", 1, 1, 100, P_NOUN));
+                    let csv = rows_to_csv(&rows);
+                    match catch(|| if user { compile_user_raw(&env, csv.as_bytes()) } else { compile_sys_raw(env.matrix.as_bytes(), csv.as_bytes()) }) {
+                        Err(p) => o.fail(Failure::panic(&ctx, &p)),
+                        Ok(Built::Rejected(_)) => o.count("rejected", 1),
+                        Ok(Built::Accepted(bytes)) => {
+                            let (sys, users) = if user { (env.base_sys.clone(), vec![bytes.clone()]) } else { (bytes.clone(), vec![]) };
+                            match catch(|| load(&env.dir, &bare_plugins(&pos_of(P_NOUN)), sys, users)) {
+                                Err(p) => o.fail(Failure::panic(&format!("{}: loading the produced dictionary", ctx), &p)),
+                                Ok(Err(_)) => {} // reported by validate_built below
+                                Ok(Ok(d)) => {
+                                    let dic_no = if user { 1u8 } else { 0 };
+                                    let found = catch(|| {
+                                        let key = "あいう";
+                                        d.lexicon().lookup(key.as_bytes(), 0).filter(|en| en.end == "あい".len() && en.word_id.dic() == dic_no).map(|en| en.word_id.word()).collect::<std::collections::BTreeSet<u32>>()
+                                    });
+                                    match found {
+                                        Err(p) => o.fail(Failure::panic(&format!("{}: lookup in the produced dictionary", ctx), &p)),
+                                        Ok(ids) => {
+                                            let want: std::collections::BTreeSet<u32> = (2..2 + n as u32).collect();
+                                            if ids != want {
+                                                let missing: Vec<&u32> = want.difference(&ids).take(5).collect();
+                                                o.fail(Failure::new("accepted-but-index-incomplete", format!("{}: compiler reported success, but lookup finds {} of the {} rows under their key (missing e.g. {:?})", ctx, ids.len(), n, missing)));
+                                            }
+                                        }
+                                    }
+                                }
+                            }
+                            validate_built(&env, Built::Accepted(bytes), user, &["あいう".to_string(), "あい".to_string()], &ctx, &mut o);
+                        }
+                    }
+                    o.observe(&(n, user));
+                    o
+                }),
+                describe_fn: Box::new(|&(n, user): &(usize, bool)| json!({"rows_under_one_key": n, "user": user})),
+            },
+            Strategy::Bfs,
+            Some(tier.pick(60, 300)),
+            json!({"homograph_counts": [1, 126, 127, 128, 129, 254, 255, 256, 257, 300, 383, 384, 512, 700]}),
+        ));
+    }
     // (d)
     {
         let env = e.clone();
@@ -643,6 +701,17 @@ pub fn main(tier: Tier, replay: Option<String>) -> i32 {
             Built::Accepted(b) => b.len(),
             Built::Rejected(e) => panic!("user baseline rejected: {}", e),
         };
+        // reference bytes of the user dictionary with the time stamp used below
+        let user_ref: Vec<u8> = {
+            let base = load(&e.dir, &bare_plugins(&pos_of(P_NOUN)), e.base_sys.clone(), vec![]).expect("bare base");
+            let mut b = DictBuilder::new_user(&base);
+            b.set_compile_time(std::time::UNIX_EPOCH + std::time::Duration::from_secs(1_600_000_000));
+            b.read_lexicon(user_csv.as_bytes()).expect("user baseline");
+            b.resolve().expect("user baseline");
+            let mut out = Vec::new();
+            b.compile(&mut out).expect("user baseline");
+            out
+        };
         for k in 0..=user_len {
             cases.push((true, k, false, usize::MAX));
             cases.push((true, k, true, usize::MAX));
@@ -661,28 +730,45 @@ pub fn main(tier: Tier, replay: Option<String>) -> i32 {
                     let csv = if user { user_csv.clone() } else { rows_to_csv(&env.base_rows) };
                     let r = catch(|| {
                         let mut sink = FaultSink { written: Vec::new(), fail_at: k, zero, chunk };
+                        // the same builder is asked again with a healthy sink afterwards
+                        let mut retry: Option<Result<Vec<u8>, String>> = None;
                         let res = if user {
                             let base = load(&env.dir, &bare_plugins(&pos_of(P_NOUN)), env.base_sys.clone(), vec![]).map_err(|e| e.to_string())?;
                             let mut b = DictBuilder::new_user(&base);
                             b.set_compile_time(std::time::UNIX_EPOCH + std::time::Duration::from_secs(1_600_000_000));
                             b.read_lexicon(csv.as_bytes()).map_err(|e| e.to_string())?;
                             b.resolve().map_err(|e| e.to_string())?;
-                            b.compile(&mut sink).map_err(|e| e.to_string())
+                            let res = b.compile(&mut sink).map_err(|e| e.to_string());
+                            let mut again = Vec::new();
+                            retry = Some(b.compile(&mut again).map(|_| again).map_err(|e| e.to_string()));
+                            res
                         } else {
                             let mut b = DictBuilder::new_system();
                             b.set_compile_time(std::time::UNIX_EPOCH + std::time::Duration::from_secs(1_600_000_000));
                             b.read_conn(env.matrix.as_bytes()).map_err(|e| e.to_string())?;
                             b.read_lexicon(csv.as_bytes()).map_err(|e| e.to_string())?;
                             b.resolve().map_err(|e| e.to_string())?;
-                            b.compile(&mut sink).map_err(|e| e.to_string())
+                            let res = b.compile(&mut sink).map_err(|e| e.to_string());
+                            let mut again = Vec::new();
+                            retry = Some(b.compile(&mut again).map(|_| again).map_err(|e| e.to_string()));
+                            res
                         };
-                        Ok::<_, String>((res, sink.written))
+                        Ok::<_, String>((res, sink.written, retry))
                     });
                     match r {
                         Err(p) => o.fail(Failure::panic(&ctx, &p)),
                         Ok(Err(e)) => o.fail(Failure::new("baseline-not-compilable", format!("{}: {}", ctx, e))),
-                        Ok(Ok((res, written))) => {
+                        Ok(Ok((res, written, retry))) => {
                             let complete = k >= full_len;
+                            // success of the second attempt is success like any other: the bytes must be the dictionary
+                            if let Some(Ok(bytes)) = &retry {
+                                o.count("retries_succeeded", 1);
+                                let reference: &Vec<u8> = if user { &user_ref } else { &env.base_sys };
+                                if bytes != reference {
+                                    let at = bytes.iter().zip(reference.iter()).position(|(a, b)| a != b).unwrap_or(bytes.len().min(reference.len()));
+                                    o.fail(Failure::new("retry-after-sink-failure-differs", format!("{}: a second compile() on the same builder with a healthy sink reports success, but its {} bytes differ from the dictionary ({} bytes) from byte {} on", ctx, bytes.len(), reference.len(), at)));
+                                }
+                            }
                             match res {
                                 Ok(()) => {
                                     if !complete {
